@@ -412,6 +412,11 @@ def run(tier):
         reported.add(key)
         ck.divergence(sig, record)
 
+    # cross-layer ordering of the composed Stack model on the same recordings (EXT only)
+    ck.cov["stack_ordering_traces_checked"] = sum(
+        lc.stack_pass(ck, vlib, rs, lambda r: r[0]["scenario"].get("mode", "WebRtc"), f"{mode}_{dc}")
+        for (mode, dc), rs in sorted(groups.items()))
+
     th.join()
     if err:
         raise err[0]
